@@ -374,6 +374,11 @@ static void mapExtractSweep(Ctx& c, const std::string& name)
 			if (places11 != 1) c.fail("C10 one-place: %s: pair 11 lives in %d places (source / handle / destination)", what.c_str(), places11);
 			if (places4 != 1) c.fail("C10 one-place: %s: pair 4 of the source lives in %d places (source / handle); the destination has its own", what.c_str(), places4);
 			if (!threw && (!in1 || in2)) c.fail("C10 handle: %s: re-insertion flags %d %d", what.c_str(), (int)in1, (int)in2);
+			// a pair that sits in a node handle is exactly the extracted pair: its own key AND its own value, both alive
+			if (!h1.IsEmpty() && (idOf(h1.GetKey()) != 11 || idOf(h1.GetValue()) != 5011 || h1.GetKey().state != 0xA11CE || h1.GetValue().state != 0xA11CE))
+				c.fail("C10 handle: %s: the handle of pair 11=5011 holds %u=%u (object states %x / %x)", what.c_str(), idOf(h1.GetKey()), idOf(h1.GetValue()), h1.GetKey().state, h1.GetValue().state);
+			if (!h2.IsEmpty() && (idOf(h2.GetKey()) != 4 || idOf(h2.GetValue()) != 5004 || h2.GetKey().state != 0xA11CE || h2.GetValue().state != 0xA11CE))
+				c.fail("C10 handle: %s: the handle of pair 4=5004 holds %u=%u (object states %x / %x)", what.c_str(), idOf(h2.GetKey()), idOf(h2.GetValue()), h2.GetKey().state, h2.GetValue().state);
 			std::string da = mapDefect(a), db = mapDefect(b);
 			if (!da.empty()) c.fail("C10 valid: %s: source: %s", what.c_str(), da.c_str());
 			if (!db.empty()) c.fail("C10 valid: %s: destination: %s", what.c_str(), db.c_str());
